@@ -98,7 +98,7 @@ add("b4_utf8_step_quick", "yaml::encoding",
     desc="one Utf8Encoder::read from an arbitrary state: returns min(want, pending) bytes, they are the next bytes of the reference UTF-8 stream (BOM skipped iff first), post-state encodes exactly the rest; remainder indices in range",
     bounds="2 pending chars (all scalar values), remainder any 0..4 bytes, caller buffer 0..5", functions=B_FUN[4:7],
     covers=["B4 char split across two reads", "B4 leading BOM skipped"],
-    props=["C07", "C02"], timeout=1800, mem_gb=12, assumptions=B4_ASM, thorough_props=["C04"])
+    props=["C07", "C02", "C04"], timeout=1800, mem_gb=12, assumptions=B4_ASM, thorough_props=["C04"])
 add("b4_utf8_step_err_quick", "yaml::encoding",
     desc="B4 with an Err item at a symbolic position of the character source: read returns Err exactly when the item is reached, never a short Ok",
     bounds="as b4_utf8_step_quick; error position any 0..=n", functions=B_FUN[4:7], covers=["B4 source error surfaces as Err"],
@@ -426,7 +426,7 @@ add("e3_k2_argv_grammar", "", overlay="e3", desc="Cli::parse_args over symbolic 
 add("e3_k7_reader_loops", "", overlay="e3",
     desc="the reader-mode document loops of the library (behind Box<dyn Read>, out of Kani's reach) from the library crate's MIR: msgpack::transcode (slice and reader branch), json::transcode (both branches), yaml::transcode_reader: one transcode_from per document in order; a failure of the reader (fill_buf / chunker item), the size calculator, from_utf8, the encoder set-up or the output is returned as Err and nothing is read or translated afterwards; Ok only at the clean end of input; every rmp-serde deserializer gets set_max_depth(DEPTH_LIMIT) before use",
     bounds="<= 3 documents per run (thorough: 4); all outcomes of fill_buf / end / iterator next / transcode_from", functions=["msgpack::transcode", "json::transcode", "yaml::transcode_reader"],
-    props=["C03", "C12", "C18", "C02"], timeout=600, mem_gb=4, assumptions=K_ASM[:1] + ["third-party calls (BufReader::fill_buf, Deserializer::{new,end}, StreamDeserializer::next, Chunker::next) return symbolic results"])
+    props=["C03", "C12", "C18", "C02", "C13"], timeout=600, mem_gb=4, assumptions=K_ASM[:1] + ["third-party calls (BufReader::fill_buf, Deserializer::{new,end}, StreamDeserializer::next, Chunker::next) return symbolic results"])
 add("e3_k9_chunker", "", overlay="e3",
     desc="yaml::chunker::Chunker::next (which does not fit in Kani) from the library crate's MIR, one call from each abstract pre-state over the libyaml event contract: a document is returned only when the next DOCUMENT-START or STREAM-END is seen (deferred by one) and is exactly the chunk cut at its DOCUMENT-END with the kind of its first content event; DOCUMENT-START trims the capture buffer to the event's start offset; a parser error becomes Some(Err(io::Error::new(InvalidData, ..))); None after STREAM-END without consulting the parser; post-state follows the events",
     bounds="12 abstract pre-states (pending document y/n, kind none/scalar/collection, ended y/n) x event sequences <= 3 (thorough: 4) over 8 symbolic event classes", functions=["yaml::chunker::Chunker::next"],
@@ -468,7 +468,7 @@ add("e3_k20_attribution", "", overlay="e3",
     bounds="every path of 26 functions of src/transcode/stream.rs; collections of <= 2 elements per visit_seq/visit_map step (each element uses a fresh seed, so longer collections repeat the same step); nesting depth unbounded (induction over the call structure)",
     functions=["transcode::stream::transcode", "transcode::stream::State::{new,take_parent,capture_error,capture_child_error,error_source,into_error}", "transcode::stream::Visitor::{new,forward_scalar,visit_* x17,visit_seq,visit_map}",
                "transcode::stream::Forwarder::{new,serialize_with_seed,serialize}", "transcode::stream::{SeqSeed,KeySeed,ValueSeed}::{new,deserialize}"],
-    props=["C11", "C12", "C04", "C01"], thorough_props=["C03"], timeout=600, mem_gb=4,
+    props=["C11", "C12", "C04", "C01", "C16"], thorough_props=["C03"], timeout=600, mem_gb=4,
     assumptions=K_ASM[:1] + ["third-party contract (serde conventions): a Deserializer calls at most one visit_* method per deserialize_any and returns a visitor's / seed's error unchanged, otherwise its own (REAL) error without touching the visitor; "
                              "a collection serializer serialises the element it is handed at most once and returns the element's error unchanged, otherwise Ok or its own (REAL) error; every other Serializer method returns Ok or its own error",
                              "Cell<T> is a heap cell identified by its term (Rust's ownership rules make distinct States distinct); Option::expect/unwrap reached with a possible None is reported as a panic"])
